@@ -1,6 +1,8 @@
 import XzVerif.Model.DictCap
 import XzVerif.Spec.DictCap
 import XzVerif.Model.Chunk
+import XzVerif.Model.Xz
+import XzVerif.Model.Lzma1
 /-
   driver — line protocol around the executable definitions of Spec and Model.
   One request per line on stdin, one reply line on stdout.  Core-only, so it links.
@@ -12,9 +14,69 @@ def kindOfName (s : String) : Option ChunkKind :=
   | "eos" => some .eos | "ud" => some .ud | "u" => some .u | "l" => some .l
   | "lr" => some .lr | "lrn" => some .lrn | "lrnd" => some .lrnd | _ => none
 
+def nameOfKind : ChunkKind → String
+  | .eos => "eos" | .ud => "ud" | .u => "u" | .l => "l" | .lr => "lr" | .lrn => "lrn" | .lrnd => "lrnd"
+
 def optNatStr : Option Nat → String
   | none => "none"
   | some n => toString n
+
+def hexVal (c : UInt8) : UInt8 :=
+  if c ≥ 48 ∧ c ≤ 57 then c - 48 else if c ≥ 97 ∧ c ≤ 102 then c - 87 else if c ≥ 65 ∧ c ≤ 70 then c - 55 else 0
+
+/-- "-" denotes the empty byte string -/
+def unhex (s : String) : ByteArray := Id.run do
+  if s = "-" then return ByteArray.empty
+  let u := s.toUTF8
+  let mut o := ByteArray.emptyWithCapacity (u.size / 2)
+  for i in [0:u.size / 2] do
+    o := o.push (hexVal (u.get! (2 * i)) * 16 + hexVal (u.get! (2 * i + 1)))
+  return o
+
+def hexDigit (n : UInt8) : UInt8 := if n < 10 then n + 48 else n + 87
+
+def hex (b : ByteArray) : String := Id.run do
+  if b.size = 0 then return "-"
+  let mut o := ByteArray.emptyWithCapacity (b.size * 2)
+  for i in [0:b.size] do
+    let x := b.get! i
+    o := o.push (hexDigit (x / 16))
+    o := o.push (hexDigit (x % 16))
+  return String.fromUTF8! o
+
+def chunkInfo (c : Lzma2.Chunk) : String :=
+  s!"{nameOfKind c.kind}:{c.usize}:{c.csize}:{c.consumed}:{if c.marker then 1 else 0}:{c.ops.size}"
+
+def xzInfo (r : Xz.Result) : String :=
+  " ".intercalate (r.streams.toList.map (fun s =>
+    s!"S flags={s.flags} pad={s.padAfter} " ++ " ".intercalate (s.blocks.toList.map (fun b =>
+      s!"B hl={b.hdr.len} cs={optNatStr b.hdr.csize} us={optNatStr b.hdr.usize} dc={b.hdr.dictCode} u={b.usize} c={b.csize} k=" ++
+        ",".intercalate (b.chunks.toList.map chunkInfo)))))
+
+def opStr : Lzma.RawOp → String
+  | .lit b => s!"L{b}"
+  | .mtch len d => s!"M{len},{d}"
+  | .rep g len => s!"R{g},{len}"
+  | .shortRep => "S"
+
+def parseOp (s : String) : Option Lzma.RawOp :=
+  let body := (s.drop 1).toString
+  match s.front with
+  | 'L' => body.toNat?.map Lzma.RawOp.lit
+  | 'S' => some .shortRep
+  | 'M' => match body.splitOn "," with
+    | [a, b] => match a.toNat?, b.toNat? with
+      | some a, some b => some (.mtch a b)
+      | _, _ => none
+    | _ => none
+  | 'R' => match body.splitOn "," with
+    | [a, b] => match a.toNat?, b.toNat? with
+      | some a, some b => some (.rep a b)
+      | _, _ => none
+    | _ => none
+  | _ => none
+
+def boolOf (s : String) : Bool := s = "1"
 
 def handle (line : String) : String :=
   match (line.trimAscii.toString.splitOn " ").filter (· ≠ "") with
@@ -34,6 +96,42 @@ def handle (line : String) : String :=
     | some ks =>
       s!"{Model.readerAccepts ks} {optNatStr (Model.readerFirstReject Gen.lzma_stateStart ks 0)} {Spec.legal ks} {optNatStr (Spec.firstIllegal .init ks 0)}"
     | none => "bad-op"
+  -- xzread <strict> <cfgCap> <single> <hex>  →  <class> <pos> <out-hex> | <info>
+  | ["xzread", strict, cap, single, h] => match cap.toNat? with
+    | some cap =>
+      let r := Xz.read (boolOf strict) cap (boolOf single) (unhex h)
+      s!"{r.status.cls} {r.pos} {hex r.out} | {xzInfo r} | {repr r.status}"
+    | none => "bad-op"
+  -- xzreenc <hex> → re-encoded bytes of the parsed stream(s), or fail
+  | ["xzreenc", h] =>
+    let r := Xz.read false 0 false (unhex h)
+    if r.status.isClean then hex (Xz.emit r.streams) else s!"fail {repr r.status}"
+  | ["lzma2read", strict, cap, h] => match cap.toNat? with
+    | some cap =>
+      let (r, st) := Lzma2.decode (boolOf strict) cap (unhex h) 0 ByteArray.empty
+      s!"{st.cls} {r.pos} {hex r.h.out} | {",".intercalate (r.chunks.toList.map chunkInfo)} | {repr st}"
+    | none => "bad-op"
+  | ["lzma2reenc", cap, h] => match cap.toNat? with
+    | some cap =>
+      let (r, st) := Lzma2.decode false cap (unhex h) 0 ByteArray.empty
+      if st.isClean then hex (Lzma2.emit cap r.chunks) else s!"fail {repr st}"
+    | none => "bad-op"
+  | ["lzmaread", cap, h] => match cap.toNat? with
+    | some cap =>
+      let r := Lzma1.read cap (unhex h)
+      let hs := match r.header with
+        | some hd => s!"lc={hd.props.lc} lp={hd.props.lp} pb={hd.props.pb} dict={hd.dictCap} size={optNatStr hd.size}"
+        | none => "noheader"
+      s!"{r.status.cls} {r.consumed} {hex r.out} | open={r.openError} marker={r.marker} {hs} nops={r.ops.size} | {repr r.status}"
+    | none => "bad-op"
+  | ["lzmareenc", h] =>
+    let r := Lzma1.read 0 (unhex h)
+    match r.header, r.status.isClean with
+    | some hd, true => hex (Lzma1.encode hd r.ops false)
+    | _, _ => s!"fail {repr r.status}"
+  | ["lzmaops", h] =>
+    let r := Lzma1.read 0 (unhex h)
+    " ".intercalate (r.ops.toList.map opStr)
   | _ => "bad-op"
 
 partial def loop (h : IO.FS.Stream) (out : IO.FS.Stream) : IO Unit := do
